@@ -149,19 +149,29 @@ theorem countP_split (l : List Nat) {a b c : Nat} (hab : a ≤ b) (hbc : b ≤ c
     by_cases h1 : a ≤ x <;> by_cases h2 : x < b <;> by_cases h3 : b ≤ x <;> by_cases h4 : x < c <;>
       simp [h1, h2, h3, h4] <;> omega
 
-theorem histFrom_sum (b : Nat) (cs ch : List Nat) :
-    (histFrom b cs ch).sum = ch.countP (fun p => decide (b ≤ p) && decide (p < b + cs.sum)) := by
-  induction cs generalizing b with
+theorem histFrom_sum_aux (b : Nat) (cs ch : List Nat) (s : Nat) (hs : s = cs.sum) :
+    (histFrom b cs ch).sum = ch.countP (fun p => decide (b ≤ p) && decide (p < b + s)) := by
+  induction cs generalizing b s with
   | nil =>
-    simp only [histFrom, List.sum_nil, Nat.add_zero]
-    symm
-    rw [List.countP_eq_zero]
-    intro p _
-    simp only [Bool.and_eq_true, decide_eq_true_eq]; omega
+    have h0 : s = 0 := by simpa using hs
+    have : ch.countP (fun p => decide (b ≤ p) && decide (p < b + s)) = 0 := by
+      rw [List.countP_eq_zero]
+      intro p _
+      simp only [Bool.and_eq_true, decide_eq_true_eq]
+      omega
+    rw [this]; rfl
   | cons c cs ih =>
+    have hs' : s = c + cs.sum := by simpa using hs
     simp only [histFrom, List.sum_cons]
-    rw [ih (b + c), ← countP_split ch (show b ≤ b + c by omega) (show b + c ≤ b + (c + cs.sum) by omega)]
-    simp [Nat.add_assoc]
+    rw [ih (b + c) cs.sum rfl, countP_split ch (show b ≤ b + c by omega) (show b + c ≤ b + c + cs.sum by omega)]
+    apply List.countP_congr
+    intro p _
+    simp only [Bool.and_eq_true, decide_eq_true_eq]
+    omega
+
+theorem histFrom_sum (b : Nat) (cs ch : List Nat) :
+    (histFrom b cs ch).sum = ch.countP (fun p => decide (b ≤ p) && decide (p < b + cs.sum)) :=
+  histFrom_sum_aux b cs ch cs.sum rfl
 
 theorem hist_sum (cs ch : List Nat) (h : ∀ p ∈ ch, p < cs.sum) : (hist cs ch).sum = ch.length := by
   unfold hist
@@ -196,10 +206,10 @@ theorem hist_le (cs ch : List Nat) (hs : ch.Pairwise (· < ·)) (j : Nat) :
     (hist cs ch).getD j 0 ≤ cs.getD j 0 := by
   by_cases hj : j < cs.length
   · rw [List.getD_eq_getElem?_getD, hist_getElem? cs ch j hj]
-    simp only [Option.getD_some, inIv]
+    simp only [Option.getD_some]
     have := countP_interval_le ch hs (prefixSum cs j) (prefixSum cs (j + 1))
-    rw [prefixSum_succ] at this
-    rw [prefixSum_succ]
+    have e := prefixSum_succ cs j
+    change List.countP (fun p => decide (prefixSum cs j ≤ p) && decide (p < prefixSum cs (j + 1))) ch ≤ _
     omega
   · rw [List.getD_eq_getElem?_getD, List.getElem?_eq_none (by rw [hist_length]; omega)]
     simp
@@ -319,8 +329,9 @@ theorem zeroTail_set_getElem? (w : W) (c : List Nat) (hI : Inv c w) (i : Nat) (h
       show ¬ w.el = i by omega, List.getD_eq_getElem?_getD, List.getElem?_eq_getElem h2]
   · by_cases h' : i = w.el
     · subst h'
-      have h1 : i < min (i + 1) w.out.length := by omega
-      simp [h1, List.getElem?_take, List.getElem?_set, hl, he]
+      have h1 : w.el < min (w.el + 1) w.out.length := by omega
+      rw [if_pos h1]
+      simp [List.getElem?_take, List.getElem?_set, hl, he]
     · have h1 : ¬ i < min (w.el + 1) w.out.length := by omega
       simp only [h1, if_false, h, h']
       rw [List.getElem?_replicate]
@@ -360,5 +371,426 @@ theorem walk_hist (counts chosen : List Nat) (hne : counts ≠ [])
     · rw [hist_length]; omega
     · simp only [zeroTail, List.length_append, List.length_take, List.length_set, List.length_replicate]
       have := h2.outLen; omega
+
+end Biom.C12
+
+namespace Biom.C12
+
+/-! ## Part 2 — lists, masks, lookups -/
+
+section Lists
+variable {β γ : Type}
+
+theorem filterMask_nil_left (k : List Bool) : filterMask ([] : List β) k = [] := by
+  cases k <;> rfl
+
+theorem filterMask_nil_right (xs : List β) : filterMask xs [] = [] := by
+  cases xs <;> rfl
+
+theorem filterMask_cons (x : β) (xs : List β) (b : Bool) (bs : List Bool) :
+    filterMask (x :: xs) (b :: bs) = if b then x :: filterMask xs bs else filterMask xs bs := rfl
+
+theorem filterMask_sublist (xs : List β) (k : List Bool) : (filterMask xs k).Sublist xs := by
+  induction xs generalizing k with
+  | nil => rw [filterMask_nil_left]; exact List.Sublist.refl _
+  | cons x xs ih =>
+    cases k with
+    | nil => rw [filterMask_nil_right]; exact List.nil_sublist _
+    | cons b bs =>
+      rw [filterMask_cons]
+      cases b
+      · exact (ih bs).cons x
+      · exact (ih bs).cons₂ x
+
+theorem mem_of_mem_filterMask {x : β} {xs : List β} {k : List Bool} (h : x ∈ filterMask xs k) : x ∈ xs :=
+  (filterMask_sublist xs k).subset h
+
+theorem filterMask_length_eq (xs : List β) (ys : List γ) (k : List Bool) (h : xs.length = ys.length) :
+    (filterMask xs k).length = (filterMask ys k).length := by
+  induction xs generalizing ys k with
+  | nil =>
+    cases ys with
+    | nil => simp [filterMask_nil_left]
+    | cons y ys => simp at h
+  | cons x xs ih =>
+    cases ys with
+    | nil => simp at h
+    | cons y ys =>
+      cases k with
+      | nil => simp [filterMask_nil_right]
+      | cons b bs =>
+        have := ih ys bs (by simpa using h)
+        cases b <;> simp [filterMask_cons, this]
+
+theorem filterMask_map (f : β → γ) (xs : List β) (k : List Bool) :
+    filterMask (xs.map f) k = (filterMask xs k).map f := by
+  induction xs generalizing k with
+  | nil => simp [filterMask_nil_left]
+  | cons x xs ih =>
+    cases k with
+    | nil => simp [filterMask_nil_right]
+    | cons b bs => cases b <;> simp [filterMask_cons, ih]
+
+/-- `compress` by a mask computed from the elements is `filter` -/
+theorem filterMask_map_self (p : β → Bool) (xs : List β) : filterMask xs (xs.map p) = xs.filter p := by
+  induction xs with
+  | nil => rfl
+  | cons x xs ih =>
+    simp only [List.map_cons, filterMask_cons, List.filter_cons, ih]
+
+theorem filterMask_zipWith (f : Nat → Nat → Nat) (a b : List Nat) (k : List Bool) :
+    filterMask (List.zipWith f a b) k = List.zipWith f (filterMask a k) (filterMask b k) := by
+  induction a generalizing b k with
+  | nil => simp [filterMask_nil_left]
+  | cons x a ih =>
+    cases b with
+    | nil => simp [filterMask_nil_left]
+    | cons y b =>
+      cases k with
+      | nil => simp [filterMask_nil_right]
+      | cons c cs => cases c <;> simp [filterMask_cons, ih]
+
+theorem lookupBy_nil_right (ids : List Id) (id : Id) : lookupBy ids ([] : List β) id = none := by
+  cases ids <;> rfl
+
+theorem lookupBy_cons (i : Id) (ids : List Id) (x : β) (xs : List β) (id : Id) :
+    lookupBy (i :: ids) (x :: xs) id = if i = id then some x else lookupBy ids xs id := rfl
+
+theorem lookupBy_map (f : β → γ) (ids : List Id) (xs : List β) (id : Id) :
+    lookupBy ids (xs.map f) id = (lookupBy ids xs id).map f := by
+  induction ids generalizing xs with
+  | nil => rfl
+  | cons i ids ih =>
+    cases xs with
+    | nil => rfl
+    | cons x xs =>
+      simp only [List.map_cons, lookupBy_cons]
+      split
+      · rfl
+      · exact ih xs
+
+/-- a lookup by ID is a positional read at the ID's (first) position -/
+theorem lookupBy_eq_getElem? (ids : List Id) (id : Id) (h : id ∈ ids) :
+    ∃ i, i < ids.length ∧ ids[i]? = some id ∧ ∀ (xs : List β), lookupBy ids xs id = xs[i]? := by
+  induction ids with
+  | nil => simp at h
+  | cons j ids ih =>
+    by_cases hj : j = id
+    · refine ⟨0, by simp, by simp [hj], ?_⟩
+      intro xs
+      cases xs with
+      | nil => rfl
+      | cons x xs => simp [lookupBy_cons, hj]
+    · have hm : id ∈ ids := by
+        rcases List.mem_cons.mp h with h | h
+        · exact absurd h.symm hj
+        · exact h
+      obtain ⟨i, h1, h2, h3⟩ := ih hm
+      refine ⟨i + 1, by simp; omega, by simpa using h2, ?_⟩
+      intro xs
+      cases xs with
+      | nil => rfl
+      | cons x xs => simp [lookupBy_cons, hj, h3 xs]
+
+/-- compressing IDs and values by the same mask does not change what a surviving ID looks up -/
+theorem lookupBy_filterMask (ids : List Id) (xs : List β) (k : List Bool) (id : Id) (hn : ids.Nodup)
+    (h : id ∈ filterMask ids k) :
+    lookupBy (filterMask ids k) (filterMask xs k) id = lookupBy ids xs id := by
+  induction ids generalizing xs k with
+  | nil => rw [filterMask_nil_left] at h; simp at h
+  | cons i ids ih =>
+    rw [List.nodup_cons] at hn
+    cases k with
+    | nil => rw [filterMask_nil_right] at h; simp at h
+    | cons b bs =>
+      cases xs with
+      | nil => rw [filterMask_nil_left, lookupBy_nil_right, lookupBy_nil_right]
+      | cons x xs =>
+        rw [filterMask_cons] at h
+        rw [filterMask_cons, filterMask_cons, lookupBy_cons]
+        cases b
+        · simp only [Bool.false_eq_true, if_false] at h ⊢
+          have hne : ¬ i = id := by
+            intro he; subst he; exact hn.1 (mem_of_mem_filterMask h)
+          simp only [hne, if_false]
+          exact ih xs bs hn.2 h
+        · simp only [if_true] at h ⊢
+          rw [lookupBy_cons]
+          by_cases he : i = id
+          · simp [he]
+          · simp only [he, if_false]
+            rcases List.mem_cons.mp h with h | h
+            · exact absurd h.symm he
+            · exact ih xs bs hn.2 h
+
+/-- the values of the surviving IDs, looked up in the uncompressed table, are the compressed values -/
+theorem map_lookupBy_filterMask (ids : List Id) (xs : List β) (k : List Bool) (d : β) (hn : ids.Nodup)
+    (hl : ids.length = xs.length) :
+    (filterMask ids k).map (fun id => (lookupBy ids xs id).getD d) = filterMask xs k := by
+  induction ids generalizing xs k with
+  | nil =>
+    cases xs with
+    | nil => simp [filterMask_nil_left]
+    | cons x xs => simp at hl
+  | cons i ids ih =>
+    rw [List.nodup_cons] at hn
+    cases xs with
+    | nil => simp at hl
+    | cons x xs =>
+      cases k with
+      | nil => simp [filterMask_nil_right]
+      | cons b bs =>
+        have htail : (filterMask ids bs).map (fun id => (lookupBy (i :: ids) (x :: xs) id).getD d) = filterMask xs bs := by
+          rw [← ih xs bs hn.2 (by simpa using hl)]
+          apply List.map_congr_left
+          intro a ha
+          have : ¬ i = a := by intro he; subst he; exact hn.1 (mem_of_mem_filterMask ha)
+          simp [lookupBy_cons, this]
+        cases b
+        · simpa [filterMask_cons] using htail
+        · rw [filterMask_cons, filterMask_cons]
+          simp only [if_true, List.map_cons]
+          rw [htail]
+          simp [lookupBy_cons]
+
+/-- `compress` by a mask computed from the values is `filter` by the value looked up by ID -/
+theorem filterMask_ids_by_value (p : β → Bool) (ids : List Id) (xs : List β) (d : β) (hn : ids.Nodup)
+    (hl : ids.length = xs.length) :
+    filterMask ids (xs.map p) = ids.filter (fun id => p ((lookupBy ids xs id).getD d)) := by
+  induction ids generalizing xs with
+  | nil => simp [filterMask_nil_left]
+  | cons i ids ih =>
+    rw [List.nodup_cons] at hn
+    cases xs with
+    | nil => simp at hl
+    | cons x xs =>
+      have htail : ids.filter (fun id => p ((lookupBy (i :: ids) (x :: xs) id).getD d)) =
+          ids.filter (fun id => p ((lookupBy ids xs id).getD d)) := by
+        apply List.filter_congr
+        intro a ha
+        have : ¬ i = a := by intro he; subst he; exact hn.1 ha
+        simp [lookupBy_cons, this]
+      rw [List.map_cons, filterMask_cons, List.filter_cons, htail, ih xs hn.2 (by simpa using hl)]
+      simp [lookupBy_cons]
+
+end Lists
+
+end Biom.C12
+
+namespace Biom.C12
+
+/-! ### stored entries → dense vector -/
+
+theorem lookupN_nil_left (vals : List Nat) (j : Nat) : lookupN [] vals j = 0 := by cases vals <;> rfl
+
+theorem lookupN_nil_right (idx : List Nat) (j : Nat) : lookupN idx [] j = 0 := by cases idx <;> rfl
+
+theorem lookupN_cons (i : Nat) (is : List Nat) (v : Nat) (vs : List Nat) (j : Nat) :
+    lookupN (i :: is) (v :: vs) j = if i = j then v else lookupN is vs j := rfl
+
+theorem lookupN_not_mem (idx vals : List Nat) (j : Nat) (h : j ∉ idx) : lookupN idx vals j = 0 := by
+  induction idx generalizing vals with
+  | nil => exact lookupN_nil_left _ _
+  | cons i is ih =>
+    cases vals with
+    | nil => rfl
+    | cons v vs =>
+      rw [lookupN_cons]
+      have : ¬ i = j := by intro he; subst he; exact h (by simp)
+      simp only [this, if_false]
+      exact ih vs (fun hm => h (by simp [hm]))
+
+theorem elimZeros_cons (i : Nat) (is : List Nat) (v : Nat) (vs : List Nat) :
+    elimZeros (i :: is) (v :: vs) =
+      if v = 0 then elimZeros is vs else (i :: (elimZeros is vs).1, v :: (elimZeros is vs).2) := rfl
+
+/-- `eliminate_zeros` does not change the dense content (indices distinct) -/
+theorem lookupN_elimZeros (idx vals : List Nat) (j : Nat) (hn : idx.Nodup) :
+    lookupN (elimZeros idx vals).1 (elimZeros idx vals).2 j = lookupN idx vals j := by
+  induction idx generalizing vals with
+  | nil => cases vals <;> rfl
+  | cons i is ih =>
+    rw [List.nodup_cons] at hn
+    cases vals with
+    | nil => rfl
+    | cons v vs =>
+      rw [elimZeros_cons, lookupN_cons]
+      by_cases hv : v = 0
+      · simp only [hv, if_true]
+        rw [ih vs hn.2]
+        by_cases hij : i = j
+        · subst hij; simp [lookupN_not_mem is vs i hn.1]
+        · simp [hij]
+      · simp only [hv, if_false, lookupN_cons, ih vs hn.2]
+
+theorem scatter_elimZeros (m : Nat) (idx vals : List Nat) (hn : idx.Nodup) :
+    scatter m (elimZeros idx vals).1 (elimZeros idx vals).2 = scatter m idx vals := by
+  unfold scatter
+  apply List.map_congr_left
+  intro j _
+  exact lookupN_elimZeros idx vals j hn
+
+theorem scatter_length (m : Nat) (idx vals : List Nat) : (scatter m idx vals).length = m := by
+  simp [scatter]
+
+theorem scatter_getD (m : Nat) (idx vals : List Nat) (j : Nat) :
+    (scatter m idx vals).getD j 0 = if j < m then lookupN idx vals j else 0 := by
+  unfold scatter
+  rw [List.getD_eq_getElem?_getD, List.getElem?_map]
+  by_cases h : j < m
+  · simp [h, List.getElem?_range h]
+  · simp [h, List.getElem?_eq_none (show (List.range m).length ≤ j by simp; omega)]
+
+theorem sum_map_range_point (m i v : Nat) (f : Nat → Nat) (hi : i < m) (hf : f i = 0) :
+    ((List.range m).map (fun j => if i = j then v else f j)).sum = v + ((List.range m).map f).sum := by
+  induction m with
+  | zero => omega
+  | succ m ih =>
+    rw [List.range_succ, List.map_append, List.map_append, List.sum_append_nat, List.sum_append_nat]
+    by_cases him : i = m
+    · subst him
+      have : (List.range i).map (fun j => if i = j then v else f j) = (List.range i).map f := by
+        apply List.map_congr_left
+        intro j hj
+        have : ¬ i = j := by have := List.mem_range.mp hj; omega
+        simp [this]
+      rw [this]
+      simp [hf]
+      omega
+    · have := ih (by omega)
+      rw [this]
+      simp [him]
+      omega
+
+theorem sum_map_range_zero (m : Nat) : ((List.range m).map (fun _ => 0)).sum = 0 := by
+  induction m with
+  | zero => rfl
+  | succ m ih => rw [List.range_succ, List.map_append, List.sum_append_nat, ih]; rfl
+
+/-- the dense vector's total is the total of the stored values (distinct in-range indices) -/
+theorem scatter_sum (m : Nat) (idx vals : List Nat) (hn : idx.Nodup) (hr : ∀ i ∈ idx, i < m)
+    (hl : idx.length = vals.length) : (scatter m idx vals).sum = vals.sum := by
+  induction idx generalizing vals with
+  | nil =>
+    cases vals with
+    | nil =>
+      have : scatter m [] [] = (List.range m).map (fun _ => 0) := by
+        unfold scatter; apply List.map_congr_left; intro j _; rfl
+      rw [this, sum_map_range_zero]; rfl
+    | cons v vs => simp at hl
+  | cons i is ih =>
+    rw [List.nodup_cons] at hn
+    cases vals with
+    | nil => simp at hl
+    | cons v vs =>
+      have hfun : lookupN (i :: is) (v :: vs) = fun j => if i = j then v else lookupN is vs j :=
+        funext (fun j => rfl)
+      unfold scatter
+      rw [hfun, sum_map_range_point m i v _ (hr i (by simp)) (lookupN_not_mem is vs i hn.1)]
+      have := ih vs hn.2 (fun a ha => hr a (by simp [ha])) (by simpa using hl)
+      unfold scatter at this
+      rw [this, List.sum_cons]
+
+/-- a relation between stored values (that holds of 0 and 0) carries over to the dense entries -/
+theorem lookupN_rel (R : Nat → Nat → Prop) (h0 : R 0 0) (idx a b : List Nat) (hl : a.length = b.length)
+    (h : ∀ k, R (a.getD k 0) (b.getD k 0)) (j : Nat) : R (lookupN idx a j) (lookupN idx b j) := by
+  induction idx generalizing a b with
+  | nil => rw [lookupN_nil_left, lookupN_nil_left]; exact h0
+  | cons i is ih =>
+    cases a with
+    | nil =>
+      cases b with
+      | nil => exact h0
+      | cons y b => simp at hl
+    | cons x a =>
+      cases b with
+      | nil => simp at hl
+      | cons y b =>
+        rw [lookupN_cons, lookupN_cons]
+        by_cases hij : i = j
+        · simp only [hij, if_true]; exact h 0
+        · simp only [hij, if_false]
+          exact ih a b (by simpa using hl) (fun k => h (k + 1))
+
+/-! ### totals along the other axis -/
+
+theorem colSums_nil (m : Nat) : colSums m [] = List.replicate m 0 := rfl
+theorem colSums_cons (m : Nat) (v : List Nat) (d : List (List Nat)) :
+    colSums m (v :: d) = addV v (colSums m d) := rfl
+
+theorem colSums_length (m : Nat) (d : List (List Nat)) (h : ∀ v ∈ d, v.length = m) : (colSums m d).length = m := by
+  induction d with
+  | nil => simp [colSums_nil]
+  | cons v d ih =>
+    rw [colSums_cons, addV, List.length_zipWith, ih (fun u hu => h u (by simp [hu])), h v (by simp)]
+    omega
+
+theorem addV_getD (a b : List Nat) (h : a.length = b.length) (j : Nat) :
+    (addV a b).getD j 0 = a.getD j 0 + b.getD j 0 := by
+  induction a generalizing b j with
+  | nil =>
+    cases b with
+    | nil => simp [addV]
+    | cons y b => simp at h
+  | cons x a ih =>
+    cases b with
+    | nil => simp at h
+    | cons y b =>
+      cases j with
+      | zero => simp [addV]
+      | succ j =>
+        have := ih b (by simpa using h) j
+        simpa [addV] using this
+
+theorem row_le_colSums (m : Nat) (d : List (List Nat)) (h : ∀ u ∈ d, u.length = m) (v : List Nat) (hv : v ∈ d)
+    (j : Nat) : v.getD j 0 ≤ (colSums m d).getD j 0 := by
+  induction d with
+  | nil => simp at hv
+  | cons u d ih =>
+    have hd : ∀ w ∈ d, w.length = m := fun w hw => h w (by simp [hw])
+    rw [colSums_cons, addV_getD u (colSums m d) (by rw [colSums_length m d hd, h u (by simp)])]
+    rcases List.mem_cons.mp hv with rfl | hv
+    · omega
+    · have := ih hd hv; omega
+
+/-- dropping the positions whose total is zero does not change a vector's sum -/
+theorem sum_filterMask_of_le (v c : List Nat) (hl : v.length = c.length) (h : ∀ j, v.getD j 0 ≤ c.getD j 0) :
+    (filterMask v (c.map (fun s => decide (0 < s)))).sum = v.sum := by
+  induction v generalizing c with
+  | nil => simp [filterMask_nil_left]
+  | cons x v ih =>
+    cases c with
+    | nil => simp at hl
+    | cons y c =>
+      have h0 := h 0
+      have ht := ih c (by simpa using hl) (fun j => h (j + 1))
+      simp only [List.getD_cons_zero] at h0
+      rw [List.map_cons, filterMask_cons]
+      by_cases hy : 0 < y
+      · simp [hy, ht]
+      · have : x = 0 := by omega
+        simp [hy, ht, this]
+
+theorem filterMask_replicate (m : Nat) (x : Nat) (k : List Bool) :
+    filterMask (List.replicate m x) k = List.replicate (filterMask (List.replicate m x) k).length x := by
+  rw [List.eq_replicate_iff]
+  refine ⟨rfl, ?_⟩
+  intro b hb
+  exact (List.mem_replicate.mp (mem_of_mem_filterMask hb)).2
+
+/-- compressing every vector by a mask compresses the totals by that mask -/
+theorem colSums_filterMask (m m' : Nat) (d : List (List Nat)) (k : List Bool)
+    (hm' : (filterMask (List.replicate m 0) k).length = m') :
+    colSums m' (d.map (fun v => filterMask v k)) = filterMask (colSums m d) k := by
+  induction d with
+  | nil => rw [List.map_nil, colSums_nil, colSums_nil, filterMask_replicate, hm']
+  | cons v d ih =>
+    rw [List.map_cons, colSums_cons, colSums_cons, ih, addV, addV, filterMask_zipWith]
+
+theorem all_pos_filterMask_self (xs : List Nat) :
+    (filterMask xs (xs.map (fun s => decide (0 < s)))).all (fun s => decide (0 < s)) = true := by
+  rw [filterMask_map_self, List.all_eq_true]
+  intro x hx
+  exact (List.mem_filter.mp hx).2
 
 end Biom.C12
